@@ -922,6 +922,8 @@ def c09(tier):
         runs_ = [r.choice(["---", "--", "~~~", "==", "___", "----", "|", "::"]) for _ in range(r.randint(1, 4))]
         sc_ = gen.scene(r, runs_, wmax=30, hmax=14)
         corpus.append(gen.framed(sc_) if i % 2 else sc_)
+        if i % 4 == 0:
+            corpus.append(gen.run_in_box_under_diagonal(r))
     # strokes that run into a glyph drawing two separate fragments (crosses, double lines): the glyph's cell belongs to two
     # contact groups
     for g in "╳╪╫╬═║┼X#+":
